@@ -84,7 +84,15 @@ func (c *Configuration) validate() (bool, error) {
 		}
 	}
 
+	serviceSeen := make(map[string]bool)
 	for index, serviceName := range c.ServiceNameList {
+		if serviceSeen[serviceName] {
+			// registering the routes of a service twice makes the router panic
+			err := errors.New("Invalid serviceNameList[" + strconv.Itoa(index) + "]: " +
+				serviceName + " is listed twice.")
+			return false, err
+		}
+		serviceSeen[serviceName] = true
 		switch {
 		case serviceName == "nchf-convergedcharging":
 		case serviceName == "nchf-offlineonlycharging":
